@@ -218,7 +218,7 @@ func buildFiltered(roots []*MNode, incl, excl []string, reset bool) (fsutil.FS, 
 	return fs, nil
 }
 
-// output: ((stat...) archive-result) ; ((#9)) when the patterns are rejected
+// output: ((stat...) archive-result pattern-table) ; (() (#9)) when the patterns are rejected
 func run1702(in Sx) (out Sx) {
 	defer func() {
 		if r := recover(); r != nil {
@@ -252,7 +252,11 @@ func run1702(in Sx) (out Sx) {
 	}
 	fs2, _ := buildFiltered(SxView(in.L[0]), incl, excl, reset)
 	res, _, _ := archiveResult(fs2)
-	return L(L(listing...), res)
+	// third element: the real single-pattern match results ((cleanedPattern path bool) ...) for every
+	// pattern and every path (and path prefix) of the view — lets the glue decide whether a failing Open
+	// is the known walk/Open disagreement of moby/patternmatcher (C10's table, see c10.go)
+	pt := pmatchTable(append(append([]string{}, incl...), excl...), withPrefixes(viewPaths(roots)))
+	return L(L(listing...), res, L(pt...))
 }
 
 // ---- extraction ---------------------------------------------------------------------------
@@ -504,7 +508,7 @@ func c17ViewStats(roots []*MNode) (n, payload, links, special, big int) {
 
 func c17Class(prefix string, out Sx) string {
 	res := out
-	if len(out.L) == 2 && out.L[0].Kind == 'l' {
+	if len(out.L) >= 2 && out.L[0].Kind == 'l' {
 		res = out.L[1]
 	}
 	if len(res.L) == 0 || res.L[0].Kind != 'n' {
@@ -648,7 +652,7 @@ func genC17(g *Gen) {
 		reset := r.Chance(75)
 		in := L(ViewSx(roots), L(incl...), L(excl...), Bool(reset))
 		out := run1702(in)
-		nt := len(out.L) == 2 && len(out.L[1].L) > 0 && out.L[1].L[0].U64() == 0 && len(out.L[0].L) >= 2 &&
+		nt := len(out.L) >= 2 && len(out.L[1].L) > 0 && out.L[1].L[0].U64() == 0 && len(out.L[0].L) >= 2 &&
 			len(out.L[0].L) < len(paths)
 		g.EmitWith(0x1702, in, out, nt, c17Class(map[bool]string{true: "filt-reset", false: "filt-raw"}[reset], out))
 	}
